@@ -2627,6 +2627,12 @@ static CK_RV AsymEncrypt(Session* session, CK_BYTE_PTR pData, CK_ULONG ulDataLen
 
 	// We must allow input length <= k and therfore need to prepend the data with zeroes.
 	if (mechanism == AsymMech::RSA) {
+		// The data cannot be longer than the modulus
+		if (ulDataLen > size)
+		{
+			session->resetOp();
+			return CKR_DATA_LEN_RANGE;
+		}
 		data.wipe(size-ulDataLen);
 	}
 
@@ -4644,6 +4650,12 @@ static CK_RV AsymSign(Session* session, CK_BYTE_PTR pData, CK_ULONG ulDataLen, C
 
 	// We must allow input length <= k and therfore need to prepend the data with zeroes.
 	if (mechanism == AsymMech::RSA) {
+		// The data cannot be longer than the modulus
+		if (ulDataLen > size)
+		{
+			session->resetOp();
+			return CKR_DATA_LEN_RANGE;
+		}
 		data.wipe(size-ulDataLen);
 	}
 
@@ -5609,6 +5621,12 @@ static CK_RV AsymVerify(Session* session, CK_BYTE_PTR pData, CK_ULONG ulDataLen,
 
 	// We must allow input length <= k and therfore need to prepend the data with zeroes.
 	if (mechanism == AsymMech::RSA) {
+		// The data cannot be longer than the modulus
+		if (ulDataLen > size)
+		{
+			session->resetOp();
+			return CKR_DATA_LEN_RANGE;
+		}
 		data.wipe(size-ulDataLen);
 	}
 
